@@ -2,7 +2,7 @@
 import sys, ast, inspect, math, random, signal
 from core import *
 import gen
-from c04 import Oracles, pick_threshold, make_curve, as_nat_list, as_rows, crows, fsame, DISTS, COSTS, GRID
+from c04 import Oracles, pick_threshold, make_curve, as_nat_list, as_rows, crows, fsame, DISTS, COSTS, GRID, METRIC_CTOR
 
 ORDERS = ['triangle', 'area', 'segment']
 CONFIGS = [(d, c, o) for d in DISTS for c in COSTS for o in ORDERS]      # 2 x 5 x 3
@@ -410,8 +410,8 @@ class C01:
         dflt = (c['dist'], c['cost'], c['order']) == DEFAULT
         if c.get('skip'):
             n = 0                                   # outside the domain (code 600): never a verdict
-        return 'CAll %s %s %s %s %s %s %s %s %s %s %s %s %s' % (
-            cnat(n), cbool(c['cost'] == 'r2'), fl(c.get('t', 0.01)), cnat(c['k']), cnat(c['m']), cnat(c.get('kmax') or n),
+        return 'CAll %s %s %s %s %s %s %s %s %s %s %s %s %s %s' % (
+            cnat(n), METRIC_CTOR[c['cost']], cpts(c['points']) if n else '[]', fl(c.get('t', 0.01)), cnat(c['k']), cnat(c['m']), cnat(c.get('kmax') or n),
             cfls(c.get('ts', [])), cbool(dflt),
             dt, ct, pt, gt, ' '.join(cres(c['res'][s]) for s in SIMPS))
 
